@@ -53,19 +53,6 @@ def statM : JMembers → Stat → Stat
   | .cons k v ms, s => statM ms (stat v { s with keylen := s.keylen + k.length })
 end
 
-mutual
-def depth : Model.Json → Nat
-  | .arr xs => 1 + depthL xs
-  | .obj ms => 1 + depthM ms
-  | _ => 0
-def depthL : JList → Nat
-  | .nil => 0
-  | .cons x xs => max (depth x) (depthL xs)
-def depthM : JMembers → Nat
-  | .nil => 0
-  | .cons _ v ms => max (depth v) (depthM ms)
-end
-
 def step (j : Model.Json) (s : String) : Option Model.Json :=
   if s.startsWith "#" then (s.drop 1).toNat?.bind fun n => item? n j
   else get? (decStr s) j
